@@ -120,8 +120,13 @@ impl Gatekeeper {
 
     /// Gets the data held by the tower about a given user.
     pub(crate) fn get_user_info(&self, user_id: UserId) -> Option<(UserInfo, Vec<Locator>)> {
-        let info = self.registered_users.lock().unwrap().get(&user_id).cloned();
-        info.map(|info| (info, self.dbm.lock().unwrap().load_user_locators(user_id)))
+        // The users map is kept locked while the locators are loaded, so the slots and the appointments reported belong
+        // to the same moment (e.g. not the slots from before a refund with the appointments from after it).
+        let registered_users = self.registered_users.lock().unwrap();
+        registered_users
+            .get(&user_id)
+            .cloned()
+            .map(|info| (info, self.dbm.lock().unwrap().load_user_locators(user_id)))
     }
 
     /// Authenticates a user.
